@@ -6,7 +6,7 @@ PROP = dict(
     required_theorems=["C24_void_lawful", "C24_bool_lawful", "C24_int_lawful", "C24_float_lawful", "C24_string_lawful",
                        "C24_string_is_lexicographic", "C24_tuple2_lawful", "C24_tuple3_lawful", "C24_tuple4_lawful",
                        "C24_tuple_lt_is_lexicographic", "C24_array_equal_spec", "C24_array_equal_lawful",
-                       "C24_ne_is_negation", "C24_order_laws", "C24_hash_congr_scalars", "C24_hash_congr_compound"],
+                       "C24_ne_is_negation", "C24_order_laws", "C24_hash_congr_scalars", "C24_hash_congr_compound", "C24_string_hash_loop"],
     harness_bin="c24",
     # the compared line contains the exact hash values, which the property does not fix (only "equal values hash
     # equally"); every property-relevant disagreement is caught with a concrete input by the Rust oracle and the laws
@@ -21,7 +21,10 @@ PROP = dict(
          "every operand SHAPE the compiler distinguishes: variable/literal (all pairs; the literal becomes the immediate of "
          "an *Imm instruction), literal/variable and literal/literal (seeded half in quick, all in thorough), with the "
          "laws evaluated per shape, and as a literal MATCH PATTERN (`match a { <lit b> -> .. }` matches exactly when a == b; "
-         "non-negative literals only, the grammar has no negative patterns); one program per pair, compiled and run by the real compiler+VM, "
+         "non-negative literals only, the grammar has no negative patterns), and through QUALIFIED INTERFACE CALLS "
+         "Equal.equal / Ord.less_than / ... / Hash.hash (the only route to the prelude's `implement Equal/Ord for "
+         "int/float/string` bodies, i.e. the equal_int / equal_float / equal_string / ..._int intrinsics by name) on the "
+         "scalars, on 4 exhaustive compound types and 4 mixed ones; one program per pair, compiled and run by the real compiler+VM, "
          "prints == != < <= > >= and Hash.hash of both; compared with the Lean hand model, with a lexicographic Rust "
          "oracle, and the laws (reflexive/symmetric/transitive ==, != negation, trichotomy, <= iff not >, >= iff flipped <=, "
          "transitive <, equal => equal hash) are evaluated on the implementation's answers over all pairs and triples; "
